@@ -1204,3 +1204,29 @@ def x1f_nested_roundtrip(h):
     h.oblige("nothing left over", h.length(h.attr(d.value, "remaining")) == 0)
     h.oblige("assert_complete passes", h.method(d.value, "assert_complete").ok)
     h.cover("nested round trip")
+
+
+@oset("at4.xFF11.decode-longer-record", ["C05", "C17"], ABL_FNS[2:3],
+      bounded="one record with following length 25..50 (1..26 bytes beyond the 26-byte layout), empty AC name")
+def abl_decode_longer_record(h):
+    """End-to-end companion of the loop-level stride obligations of at4.xFF11.decode-vendor-reading, with natively
+    replayable counter-models: the data is exactly one record whose announced following length is larger than the
+    known 24 (a later console layout).  C17: 'status records longer than the known layout are decoded from their
+    known prefix'; C05: 'record strides announced by the console are honoured'."""
+    fl = h.choice("following_length", list(range(25, 51)))
+    n = 2 + fl
+    buf = h.bytes("data", n)
+    b = h.items(buf)
+    h.assume(b[1] == fl, "Byte4 announces the following length of this one record")
+    h.assume(b[2] == 0, "empty AC name (keeps the path count small; names are covered by the unbounded set)")
+    r = h.method(h.new(ABL + ":AcAbilityDecoder"), "decode", buf, at4_subheader(h, SUB_ABILITY, n))
+    h.oblige("a record longer than the known layout is not rejected for its length", r.ok)
+    if not r.ok:
+        return
+    m = h.attr(r.value, "message")
+    h.oblige("result is an ability message", h.isinstance(m, ABL + ":AcAbilityMessage"))
+    recs = h.elems(h.attr(m, "ac_abilities"))
+    h.oblige("exactly the one announced record is decoded (the extra bytes are skipped, not read as another AC)", len(recs) == 1)
+    if len(recs) >= 1:
+        check_ability_record(h, recs[0], b[:26], "known prefix: ")
+    h.oblige("nothing left over", h.length(h.attr(r.value, "remaining")) == 0)
